@@ -388,5 +388,8 @@ pub fn run(ctx: &Ctx) -> &'static str {
         || apply_strategy(mo),
         |_| check_apply,
     );
+    if ctx.tier == crate::rt::Tier::Thorough {
+        crate::props::e2e::run(ctx, crate::props::e2e::Phase::Reload, 2);
+    }
     "exploration"
 }
